@@ -63,6 +63,20 @@ def cli_vectors(ctx, gate_topa):
     for t in ([2, 4] if quick else [2, 3, 4, 8, 16]):
         add("topa-window-insertions/t%d" % t, win + ["-t", str(t)], base=win + ["-t", "1"], env={"VHOOK_JITTER": str(ctx.seed + t)},
             parse="topa", n=24, sig="topa-window", r=max(reps, 6))
+    GEN = "TTGATGGCTAAATAAGGCTCACCCGGGCAT"        # forward gene 4..15 (M A K *), reverse gene 19..30 (M P G *)
+    from ..inputs import genbank
+    files["rev.gb"] = {"text": genbank(origin=GEN, feats=(("4..15", "g1", 1, "MAK"), ("complement(19..30)", "g2", 1, "MPG")))}
+    nxt = {"A": "C", "C": "G", "G": "T", "T": "A"}
+
+    def rev_rec(i):
+        s = list(GEN)
+        for p in (18 + (i * 7) % 12, 18 + (i * 5 + 3) % 12, 3 + (i * 11) % 12):
+            s[p] = nxt[s[p]] if i % 4 else "RYKM"[(i // 4) % 4]
+        return ("q%d" % i, "".join(s))
+    files["rev.fa"] = {"text": fasta([("ref", GEN)] + [rev_rec(i) for i in range(400)])}
+    rv = ["variants", "--msa", "@rev.fa", "--reference", "ref", "-a", "@rev.gb", "--append-snps"]
+    for t in ([4, 8] if quick else [2, 3, 4, 8, 16]):
+        add("variants-reverse-strand/t%d" % t, rv + ["-t", str(t)], base=rv + ["-t", "1"], parse="csv", hdr=1, n=400, sig="variants-reverse-strand", r=max(reps, 6))
     # imposed delivery orders from the model, small input
     small = dict(files)
     small["in.sam"] = {"kind": "pipe-sam", "N": gate_topa[0]["N"]} if gate_topa else files["in.sam"]
